@@ -595,8 +595,8 @@ void h_spgemm_saad(void)
     thorough_variants=[{'NMAX': 2, 'ZMAX': 3, 'VMASK': 1, 'VOFF': 0, 'SORT': 1},
                        {'NMAX': 2, 'ZMAX': 3, 'VMASK': 3, 'VOFF': 0, 'SORT': 0, 'CXC_NOCOVER': 1},
                        {'NMAX': 2, 'ZMAX': 2, 'VMASK': 7, 'VOFF': 3, 'SORT': 1},
-                       {'NMAX': 3, 'ZMAX': 3, 'VMASK': 1, 'VOFF': 0, 'SORT': 0, 'CXC_NOCOVER': 1}],
-    bound_text='all compatible pairs A (n x m), B (m x k) with n,m,k <= 2, any pattern (unsorted, duplicates, empty rows), values in {0,1}; nnz <= 3 each with sort=false, nnz <= 2 each with sort=true (thorough: nnz <= 3 sorted; values 0..3; values in [-3,4] with nnz <= 2; 3x3)',
+                       {'NMAX': 3, 'ZMAX': 2, 'VMASK': 1, 'VOFF': 0, 'SORT': 0, 'CXC_NOCOVER': 1}],
+    bound_text='all compatible pairs A (n x m), B (m x k) with n,m,k <= 2, any pattern (unsorted, duplicates, empty rows), values in {0,1}; nnz <= 3 each with sort=false, nnz <= 2 each with sort=true (thorough: nnz <= 3 sorted; values 0..3; values in [-3,4] with nnz <= 2; 3x3 with nnz <= 2 -- 3x3 with nnz <= 3 does not finish in 2400 s)',
     assumptions=A_BOUNDED + ['A-vals: quick variants restrict stored values to {0,1}: the entries of C are multilinear in the stored values for each fixed pattern (no branch reads a value), and a multilinear polynomial is determined by its values on {0,1}^n; ring = int32',
                              'A-omp: the per-thread marker vector is the sequential one'],
     replay='kernels', timeout=300,
